@@ -728,9 +728,12 @@ def popen_small_reads(ctx, pexpect):
 def interact_logs(ctx, pexpect):
     """interact(): both directions are logged, with the string type of the API"""
     from .interact_rig import Rig, child_received
-    for enc, variant in ((None, 0), ('utf-8', 0), (None, 1), ('utf-8', 1)):
+    for enc, variant in ((None, 0), ('utf-8', 0), (None, 1), ('utf-8', 1), (None, 2), ('utf-8', 2)):
         a, rd, sd = (io.StringIO(), io.StringIO(), io.StringIO()) if enc else (io.BytesIO(), io.BytesIO(), io.BytesIO())
-        rig = Rig(pexpect, encoding=enc, logfile=a, logfile_read=rd, logfile_send=sd)
+        # variant 2: text is pending on the object when interact() starts (an earlier expect() matched before the end of what it
+        # had read: that text was logged when it was read): it is shown, and it is not logged a second time
+        pend = (b'PENDING ' if not enc else 'PENDING ') if variant == 2 else None
+        rig = Rig(pexpect, encoding=enc, logfile=a, logfile_read=rd, logfile_send=sd, pending=pend)
         rig.start()
         typed = 'hé'.encode('utf-8') + b'xy'
         rig.type(typed[:2])
@@ -754,6 +757,8 @@ def interact_logs(ctx, pexpect):
             return
         got_read = rd.getvalue()
         shown = screen.decode('utf-8', 'replace') if enc else screen
+        if pend is not None and shown.startswith(pend):
+            shown = shown[len(pend):]
         if got_read != shown:
             ctx.hit('C11/interact', 'interact(): logfile_read got %r, the child output shown was %r' % (got_read, shown), {'encoding': enc})
             return
